@@ -325,6 +325,8 @@ lzma_decode(void *coder_ptr, lzma_dict *restrict dictptr,
 	//     coder->sequence where to resume in the decoder loop. This
 	//     is the only mode used when HAVE_SMALL is defined.
 
+	VERIF_VISIT(VERIF_D_LZMA_SEQ, coder->sequence);
+
 	switch (coder->sequence)
 	while (true) {
 		// Calculate new pos_state. This is skipped on the first loop
